@@ -331,4 +331,295 @@ theorem qua_read_write (c : Chart) (hm : MetaOk c.info) : (write c >>= read) = .
   rw [readMeta_written c.info hm]
   rfl
 
+/-! ## only the keys and value types the format defines -/
+
+theorem recAllowed_writeHit (h : Hit) (hk : (h.keysounds != .nan) = true) : recAllowed hitObjectKeys (writeHit h) = true := by
+  cases hks : h.keysounds with
+  | nan => simp [hks] at hk
+  | list l => simp [writeHit, recAllowed, entryAllowed, hitObjectKeys, List.lookup, hasTy, ksYV, hks]
+
+theorem recAllowed_writeHold (h : Hold) (hk : (h.keysounds != .nan) = true) : recAllowed hitObjectKeys (writeHold h) = true := by
+  cases hks : h.keysounds with
+  | nan => simp [hks] at hk
+  | list l => simp [writeHold, recAllowed, entryAllowed, hitObjectKeys, List.lookup, hasTy, ksYV, hks]
+
+theorem recAllowed_writeBpm (b : Bpm) : recAllowed timingPointKeys (writeBpm b) = true := by
+  simp [writeBpm, recAllowed, entryAllowed, timingPointKeys, List.lookup, hasTy]
+
+theorem recAllowed_writeSv (s : Sv) : recAllowed sliderVelocityKeys (writeSv s) = true := by
+  simp [writeSv, recAllowed, entryAllowed, sliderVelocityKeys, List.lookup, hasTy]
+
+theorem entryAllowed_written (a b : String × YV) (ha : entryAllowed memKeyTypes a = true)
+    (hw : writeMetaVal a = .ok b) : entryAllowed metaKeyTypes b = true := by
+  unfold writeMetaVal at hw
+  by_cases hk : a.1 = tagsKey
+  · rw [if_pos hk] at hw
+    cases hv : a.2 with
+    | strs l =>
+      rw [hv] at hw
+      simp only [Except.ok.injEq] at hw
+      subst hw
+      rw [hk]
+      simp [entryAllowed, metaKeyTypes, List.lookup, hasTy, tagsKey]
+    | _ => rw [hv] at hw; simp at hw
+  · rw [if_neg hk] at hw
+    simp only [Except.ok.injEq] at hw
+    subst hw
+    unfold entryAllowed at ha ⊢
+    have := lookup_map_other Ty.list tagsKey metaKeyTypes a.1 hk
+    unfold memKeyTypes at ha
+    rw [this] at ha
+    exact ha
+
+/-- **Allowed keys and types** (`qua_write_keys`): the document written for a chart whose key-sound cells are
+lists (hypothesis forced by open finding D08: `converted_chart_counterexample`) and whose metadata attributes have
+their declared types (hypothesis forced by finding C06-N1: `default_meta_counterexample`) uses only the keys the
+format defines, each with a value of the defined type — for every number of rows, lanes, times. -/
+theorem qua_write_keys (c : Chart) (d : Doc) (hk : ksLists c = true) (hm : metaTyped c.info = true)
+    (hw : write c = .ok d) : docAllowed d = true := by
+  unfold write at hw
+  cases hwm : writeMeta c.info with
+  | error e => rw [hwm] at hw; simp [bind, Except.bind] at hw
+  | ok m' =>
+    rw [hwm] at hw
+    simp only [bind, Except.bind, Except.ok.injEq] at hw
+    subst hw
+    have h1 : recAllowed metaKeyTypes m' = true :=
+      mapE_all writeMetaVal (entryAllowed memKeyTypes) (entryAllowed metaKeyTypes)
+        (fun a b ha hb => entryAllowed_written a b ha hb) c.info m' hwm hm
+    simp only [ksLists, Bool.and_eq_true, List.all_eq_true] at hk
+    simp only [docAllowed, secAllowed, Bool.and_eq_true, h1, true_and, List.all_append, List.all_map, List.all_eq_true]
+    refine ⟨⟨⟨fun h hh => ?_, fun h hh => ?_⟩, fun b _ => ?_⟩, fun s _ => ?_⟩
+    · exact recAllowed_writeHit h (hk.1 h hh)
+    · exact recAllowed_writeHold h (hk.2 h hh)
+    · exact recAllowed_writeBpm b
+    · exact recAllowed_writeSv s
+
+/-- D08 (open): a chart as it comes out of a converter (`cast` → `TimedList.empty`: key sounds NaN) is written
+with `KeySounds: .nan` — the hypothesis `ksLists` of `qua_write_keys` cannot be dropped. -/
+theorem converted_chart_counterexample :
+    ksLists ⟨metaTable, [⟨100, 1, .nan⟩], [], [], []⟩ = false ∧
+    (write ⟨metaTable, [⟨100, 1, .nan⟩], [], [], []⟩).toOption.map
+      (fun d => secAllowed hitObjectKeys d.hitObjects) = some false := by
+  decide +kernel
+
+/-- C06-N1: `initial_scroll_velocity: float = ""` — a default-constructed chart is written with a string where
+the format defines a number; the hypothesis `metaTyped` of `qua_write_keys` cannot be dropped. -/
+theorem default_meta_counterexample :
+    metaTyped metaTable = false ∧
+    (write ⟨metaTable, [], [], [], []⟩).toOption.map docAllowed = some false ∧
+    metaTyped (metaTable.map (fun kv => if kv.1 = "InitialScrollVelocity" then (kv.1, YV.flt 1) else kv)) = true := by
+  decide +kernel
+
+/-! non-vacuity of `qua_read_write` / `qua_write_keys`: a chart with a hit, a hold, two tempo points, a scroll
+velocity, fractional and negative times, two tags -/
+
+def sampleMeta : Rec :=
+  metaTable.map (fun kv => if kv.1 = "InitialScrollVelocity" then (kv.1, YV.flt 1)
+    else if kv.1 = tagsKey then (kv.1, YV.strs ["a", "b:c"]) else kv)
+
+def sampleChart : Chart :=
+  ⟨sampleMeta, [⟨201 / 2, 2, .list []⟩, ⟨-1 / 2, 0, .list [⟨1, 50⟩]⟩], [⟨7 / 10, 1, 3 / 10, .list []⟩],
+   [⟨0, 120, 3⟩, ⟨10009 / 10, 100 / 3, 4⟩], [⟨11 / 2, 2⟩]⟩
+
+example : MetaOk sampleChart.info := by
+  constructor <;> decide +kernel
+
+example : ksLists sampleChart = true ∧ metaTyped sampleChart.info = true := by decide +kernel
+
+example : ((write sampleChart >>= read).toOption.map (fun c => (c.hits, c.holds, c.bpms))) =
+    some ([⟨100, 2, .list []⟩, ⟨0, 0, .list [⟨1, 50⟩]⟩], [⟨0, 1, 1, .list []⟩], [⟨0, 120, 4⟩, ⟨1000, 100 / 3, 4⟩]) := by
+  decide +kernel
+
+
+/-! ## reading = the declared chart, with the format's defaults -/
+
+theorem readBpm_eq (r : Rec) : readBpm r = denoteTp r := by
+  unfold readBpm denoteTp numCell
+  cases r.get "StartTime" with
+  | none => cases r.get "Bpm" with
+    | none => rfl
+    | some b => cases b <;> rfl
+  | some a => cases a <;> (cases r.get "Bpm" with
+    | none => rfl
+    | some b => cases b <;> rfl)
+
+theorem readSv_eq (r : Rec) : readSv r = denoteSv r := by
+  unfold readSv denoteSv numCell
+  cases r.get "StartTime" with
+  | none => cases r.get "Multiplier" with
+    | none => rfl
+    | some b => cases b <;> rfl
+  | some a => cases a <;> (cases r.get "Multiplier" with
+    | none => rfl
+    | some b => cases b <;> rfl)
+
+def cellP : Option YV → Option Rat
+  | some (.int i) => some (i : Rat)
+  | some (.flt q) => some q
+  | _ => none
+def laneI (r : Rec) : Int := match r.get "Lane" with | some (.int i) => i | _ => 0
+def ksP (r : Rec) : KsCell := match r.get "KeySounds" with | some (.ks l) => .list l | _ => .nan
+def startP (r : Rec) : Rat := (cellP (r.get "StartTime")).getD 0
+def rowP (r : Rec) : NoteRow := ⟨cellP (r.get "StartTime"), cellP (r.get "EndTime"), some (laneI r : Rat), ksP r⟩
+def hitP (r : Rec) : Hit := ⟨startP r, laneI r - 1, ksP r⟩
+def holdP (r : Rec) : Hold := ⟨startP r, laneI r - 1, (nanSub (cellP (r.get "EndTime")) (some (startP r))).getD 0, ksP r⟩
+def objP (r : Rec) : Obj := if hasEnd r then .hold (holdP r) else .hit (hitP r)
+
+theorem numCell_ok (r : Rec) (k : String) (h : numLike (r.get k) = true) : numCell r k = .ok (cellP (r.get k)) := by
+  unfold numCell
+  cases hv : r.get k with
+  | none => rfl
+  | some v => rw [hv] at h; cases v <;> first | rfl | simp [numLike] at h
+
+theorem objOk_parts (r : Rec) (h : objOk r = true) :
+    numLike (r.get "StartTime") = true ∧ numLike (r.get "EndTime") = true ∧
+    (∃ i, r.get "Lane" = some (.int i)) ∧ (∃ l, r.get "KeySounds" = some (.ks l)) := by
+  simp only [objOk, Bool.and_eq_true] at h
+  obtain ⟨⟨⟨h1, h2⟩, h3⟩, h4⟩ := h
+  refine ⟨h1, h2, ?_, ?_⟩
+  · cases hv : r.get "Lane" with
+    | none => simp [hv] at h3
+    | some v => cases v <;> simp_all
+  · cases hv : r.get "KeySounds" with
+    | none => simp [hv] at h4
+    | some v => cases v <;> simp_all
+
+theorem noteRowOf_ok (r : Rec) (h : objOk r = true) : noteRowOf r = .ok (rowP r) := by
+  obtain ⟨h1, h2, ⟨i, h3⟩, ⟨l, h4⟩⟩ := objOk_parts r h
+  have hl : numCell r "Lane" = .ok (some (i : Rat)) := by simp [numCell, h3, numOf, Except.map]
+  have hk : ksCell r = .ok (.list l) := by simp [ksCell, h4]
+  simp [noteRowOf, numCell_ok r _ h1, numCell_ok r _ h2, hl, hk, bind, Except.bind, rowP, laneI, ksP, h3, h4]
+
+theorem intOfRat_sub_one (i : Int) : intOfRat ((i : Rat) - 1) = .ok (i - 1) := by
+  have : ((i : Rat) - 1) = ((i - 1 : Int) : Rat) := by push_cast; rfl
+  rw [this]; exact intOfRat_int _
+
+theorem denoteObj_ok (r : Rec) (h : objOk r = true) : denoteObj r = .ok (objP r) := by
+  obtain ⟨h1, h2, ⟨i, h3⟩, ⟨l, h4⟩⟩ := objOk_parts r h
+  have hs : startOf r = .ok (startP r) := by
+    unfold startOf startP
+    cases hv : r.get "StartTime" with
+    | none => rfl
+    | some v => rw [hv] at h1; cases v <;> first | rfl | simp [numLike] at h1
+  have hl : laneOf r = .ok i := by simp [laneOf, h3, numOf, bind, Except.bind, intOfRat_int]
+  have hk : keySoundsOf r = .ok (.list l) := by simp [keySoundsOf, h4]
+  unfold denoteObj
+  simp only [hs, hl, hk, bind, Except.bind]
+  cases hv : r.get "EndTime" with
+  | none => simp [objP, hasEnd, hv, hitP, laneI, ksP, h3, h4]
+  | some v =>
+    rw [hv] at h2
+    cases v with
+    | int e => simp [objP, hasEnd, hv, holdP, laneI, ksP, h3, h4, numOf, cellP, nanSub]
+    | flt e => simp [objP, hasEnd, hv, holdP, laneI, ksP, h3, h4, numOf, cellP, nanSub]
+    | _ => simp [numLike] at h2
+
+theorem all_lane_false (rs : List Rec) (hne : rs ≠ []) (F : Rec → NoteRow) (hF : ∀ r, (F r).lane.isNone = false) :
+    (rs.map F).all (fun r => r.lane.isNone) = false := by
+  cases rs with
+  | nil => exact absurd rfl hne
+  | cons a t => simp [hF]
+
+theorem hitsFromYaml_ok (rs : List Rec) (hne : rs ≠ []) (h : ∀ r ∈ rs, objOk r = true) :
+    hitsFromYaml rs = .ok (rs.map hitP) := by
+  unfold hitsFromYaml
+  rw [mapE_ok noteRowOf rowP rs (fun r hr => noteRowOf_ok r (h r hr))]
+  simp only [bind, Except.bind, List.map_map]
+  rw [if_neg]
+  · apply mapE_map_ok
+    intro r
+    simp [rowP, hitP, startP, fillOffset, laneShift, intOfRat_sub_one]
+  · rw [all_lane_false rs hne _ (fun r => rfl)]; simp
+
+theorem holdsFromYaml_ok (rs : List Rec) (hne : rs ≠ []) (h : ∀ r ∈ rs, objOk r = true) :
+    holdsFromYaml rs = .ok (rs.map holdP) := by
+  unfold holdsFromYaml
+  rw [mapE_ok noteRowOf rowP rs (fun r hr => noteRowOf_ok r (h r hr))]
+  simp only [bind, Except.bind, List.map_map]
+  rw [if_neg]
+  · apply mapE_map_ok
+    intro r
+    simp [rowP, holdP, startP, fillOffset, fillLength, laneShift, intOfRat_sub_one]
+  · rw [all_lane_false rs hne _ (fun r => rfl)]; simp
+
+theorem objHits_map (ns : List Rec) : objHits (ns.map objP) = (ns.filter (fun r => !hasEnd r)).map hitP := by
+  induction ns with
+  | nil => rfl
+  | cons a t ih =>
+    by_cases ha : hasEnd a = true
+    · simp [objP, ha, objHits, ih]
+    · simp [objP, ha, objHits, ih]
+
+theorem objHolds_map (ns : List Rec) : objHolds (ns.map objP) = (ns.filter hasEnd).map holdP := by
+  induction ns with
+  | nil => rfl
+  | cons a t ih =>
+    by_cases ha : hasEnd a = true
+    · simp [objP, ha, objHolds, ih]
+    · simp [objP, ha, objHolds, ih]
+
+theorem readNotes_ok (ns : List Rec) (h : ∀ r ∈ ns, objOk r = true) :
+    readNotes ns = .ok (objHits (ns.map objP), objHolds (ns.map objP)) := by
+  unfold readNotes
+  rw [objHits_map, objHolds_map]
+  have h1 : ∀ r ∈ ns.filter (fun r => !hasEnd r), objOk r = true := fun r hr => h r (List.mem_filter.mp hr).1
+  have h2 : ∀ r ∈ ns.filter hasEnd, objOk r = true := fun r hr => h r (List.mem_filter.mp hr).1
+  cases e1 : ns.filter (fun r => !hasEnd r) with
+  | nil =>
+    cases e2 : ns.filter hasEnd with
+    | nil => rfl
+    | cons a t =>
+      have := holdsFromYaml_ok (a :: t) (by simp) (by rw [← e2]; exact h2)
+      simp [this, bind, Except.bind]
+  | cons b u =>
+    have hb := hitsFromYaml_ok (b :: u) (by simp) (by rw [← e1]; exact h1)
+    cases e2 : ns.filter hasEnd with
+    | nil => simp [hb, bind, Except.bind]
+    | cons a t =>
+      have := holdsFromYaml_ok (a :: t) (by simp) (by rw [← e2]; exact h2)
+      simp [hb, this, bind, Except.bind]
+
+/-- **Reading yields what the document declares** (`qua_read_defaults`): for every document whose hit objects
+have numeric times, an integer `Lane` and declared `KeySounds` — any lanes, omitted `StartTime`, omitted
+`Bpm` / `Multiplier` / tempo `StartTime`, empty sections, hits only, holds only, a missing section (both sides
+raise the `KeyError` class), any metadata — the reader's result is the by-the-book denotation: an object with an
+end time is a hold of duration `EndTime − StartTime`, omitted keys take the format's defaults.
+The conjunct "`KeySounds` declared" of `objOk` is forced by open finding D21
+(`omitted_keysounds_counterexample`); full statement: the same with `KeySounds` omitted read as `[]`. -/
+theorem qua_read_defaults (d : Doc) (h : objsDeclared d = true) : read d = denote d := by
+  unfold read denote
+  cases hho : d.hitObjects with
+  | none => rfl
+  | some ho =>
+    have hall : ∀ r ∈ ho, objOk r = true := by
+      simpa [objsDeclared, hho, List.all_eq_true] using h
+    simp only [sectionOf, bind, Except.bind]
+    rw [readNotes_ok ho hall, mapE_ok denoteObj objP ho (fun r hr => denoteObj_ok r (hall r hr))]
+    simp only []
+    have hb : readBpm = denoteTp := funext readBpm_eq
+    have hsv : readSv = denoteSv := funext readSv_eq
+    rw [hb, hsv]
+
+/-- D21 (open): a hit object that omits `KeySounds` is read with NaN key sounds, its denotation has `[]`. -/
+theorem omitted_keysounds_counterexample :
+    (read ⟨[], some [[("StartTime", .int 100), ("Lane", .int 2)]], some [], some []⟩).toOption.map (·.hits)
+      = some [⟨100, 1, .nan⟩] ∧
+    (denote ⟨[], some [[("StartTime", .int 100), ("Lane", .int 2)]], some [], some []⟩).toOption.map (·.hits)
+      = some [⟨100, 1, .list []⟩] := by
+  decide +kernel
+
+/-- D07 (fixed) stays fixed in the model: a hold that omits `StartTime` starts at 0 and keeps its length, also
+next to a hold that declares it. -/
+example : (read ⟨[], some [[("EndTime", .int 500), ("Lane", .int 3), ("KeySounds", .ks [])],
+                          [("StartTime", .int 10), ("EndTime", .int 300), ("Lane", .int 1), ("KeySounds", .ks [])]],
+                 some [[("Bpm", .flt (201 / 2))], []], some [[("StartTime", .int 5)]]⟩).toOption.map
+            (fun c => (c.holds, c.bpms, c.svs))
+    = some ([⟨0, 2, 500, .list []⟩, ⟨10, 0, 290, .list []⟩], [⟨0, 201 / 2, 4⟩, ⟨0, 120, 4⟩], [⟨5, 1⟩]) := by
+  decide +kernel
+
+example : objsDeclared ⟨[], some [[("EndTime", .int 500), ("Lane", .int 3), ("KeySounds", .ks [])]], some [], some []⟩ = true := by
+  decide +kernel
+
+
 end Reamber.Qua
